@@ -1595,6 +1595,24 @@ def gen_yaml(rng, tier, variant, sub):
         if rng.random() < 0.5:
             short = dict([("type", "xy")] + list(short.items()))
         loader = str(rng.choice(["XYFit", "generic"]))
+        if variant == "model-section-errors":
+            # the only uncertainties of the fit are declared in the parametric_model section of the file (relative to the model + an
+            # absolute part): the same fit as add_error(..., reference="model") on a fit built from bare data
+            rel = r6(rng.uniform(0.03, 0.1))
+            ab = r6(0.1 * float(np.abs(y).mean() + 0.2) * rng.uniform(0.6, 1.5))
+            ents = [{"type": "simple", "error_value": rel, "relative": True, "correlation_coefficient": 0.0}, {"type": "simple", "error_value": ab, "relative": False, "correlation_coefficient": 0.0}]
+            for kk in ("y_errors", "x_errors"):
+                short.pop(kk, None)
+                dataset.pop(kk, None)
+            ops[:] = [o for o in ops if o[0] not in ("add_error", "add_matrix_error")]
+            pm["y_errors"] = [dict(e_) for e_ in ents]
+            spm = {"model_function": short.pop("model_function"), "y_errors": [dict(e_) for e_ in ents]}
+            if "model_parameters" in short:
+                spm["model_parameters"] = short.pop("model_parameters")
+            short["parametric_model"] = spm
+            ops.append(["add_error", {"axis": "y", "err": rel, "relative": True, "reference": "model", "corr": 0.0, "name": "mrel"}])
+            ops.append(["add_error", {"axis": "y", "err": ab, "relative": False, "reference": "model", "corr": 0.0, "name": "mabs"}])
+            ykind = "model-section"
         C = {"how": "explicit", "ftype": "xy", "model": {"form": "callable", "text": text}, "data": {"x": spec["x"], "y": spec["y"]}, "fit_kwargs": {"minimizer": minimizer} if minimizer else {}, "ops": ops}
         feats = {"y_errors": ykind, "x_errors": "x_errors" in short, "keys": sorted(short)}
     else:
@@ -1672,7 +1690,7 @@ def _strata():
     for v, subs in (("library", ["lib-unbinned", "lib-hist"] + ["lib:" + a for v in LIBRARY.values() for a in v[0]]), ("sympy", ["lib-xy", "vlib", "renamed", "density-unbinned", "density-hist"]), ("sympy-noname", ["vlib"]), ("source", ["lib-xy", "vlib", "renamed", "indexed"]),
                     ("yaml-source", ["vlib", "indexed", "density-hist", "density-unbinned"]), ("yaml-string", ["lib-xy", "vlib"])):
         S += [("model-form", v, s) for s in subs]
-    S += [("yaml", v, "xy") for v in ("percent-scalar", "float-scalar", "float-list", "mixed-list", "single-mapping", "x-percent", "model-dict", "model-parameters", "constraint-dict")]
+    S += [("yaml", v, "xy") for v in ("percent-scalar", "float-scalar", "float-list", "mixed-list", "single-mapping", "x-percent", "model-dict", "model-parameters", "constraint-dict", "model-section-errors")]
     S += [("yaml", "float-scalar", "indexed"), ("yaml", "float-list", "indexed"), ("yaml", "single-mapping", "indexed"), ("yaml", "toplevel", "hist"), ("yaml", "toplevel", "unbinned")]
     return S
 
